@@ -123,3 +123,34 @@ Fixpoint find_y_bounded (bound : nat) (tak : list Z) (yavg offset : Z) : Z :=
       else if negb (zmem (yavg - offset) tak) then (yavg - offset)%Z
       else find_y_bounded b tak yavg (offset + 1)%Z
   end.
+
+(** * Call sequences on ONE *Graph (round 3, seeded change C19-i)
+
+    A [*Graph] is its [Nodes] map and nothing else: the caller may edit the
+    map between calls, and [Reverse] is a function of the map's CURRENT
+    content that hands back a graph built in the call.  [gs_cached] is a
+    Graph that remembers the first reverse it built (the seeded change). *)
+Inductive gop :=
+| GEdit (f : graph -> graph)          (* the caller edits g.Nodes (or the map it gave to NewGraph) *)
+| GReverse.                           (* g.Reverse(): the result is observed *)
+
+(** deployed: no state besides the current content *)
+Fixpoint run_gops (sh : N -> list name -> list name) (g : graph) (ops : list gop) : list graph :=
+  match ops with
+  | [] => []
+  | GEdit f :: r => run_gops sh (f g) r
+  | GReverse :: r => rev_graph sh g :: run_gops sh g r
+  end.
+
+(** a Graph that caches its first reverse and never invalidates it *)
+Fixpoint run_gops_cached (sh : N -> list name -> list name) (g : graph) (cache : option graph)
+  (ops : list gop) : list graph :=
+  match ops with
+  | [] => []
+  | GEdit f :: r => run_gops_cached sh (f g) cache r
+  | GReverse :: r =>
+      match cache with
+      | Some c => c :: run_gops_cached sh g cache r
+      | None => let c := rev_graph sh g in c :: run_gops_cached sh g (Some c) r
+      end
+  end.
